@@ -1259,9 +1259,10 @@ func (m *membershipAllower) membershipAllowedSelf() error { // nolint: gocyclo
 			return nil
 		}
 
-		// A user that is not in the room is allowed to join if the room
-		// join rules are "public".
-		if m.oldMember.Membership == spec.Leave && m.joinRule.JoinRule == spec.Public {
+		// A user that is not in the room (and is not banned, which was checked
+		// above) is allowed to join if the room join rules are "public". This
+		// includes a user who knocked before the room was made public.
+		if m.joinRule.JoinRule == spec.Public {
 			return nil
 		}
 
